@@ -1001,6 +1001,20 @@ theorem totalRows_mapRows [Inhabited α] [Inhabited β] (g : List α → List β
     simp only [totalRows, List.map_cons, List.sum_cons] at ih ⊢
     rw [ih, (mapRows_rect g hk b).nrows hn]
 
+theorem map_range_const {γ : Type} (n : Nat) (x : γ) :
+    (List.range n).map (fun _ => x) = List.replicate n x := by
+  apply List.ext_getElem <;> simp
+
+theorem rowsOfCols_replicate [Inhabited α] (nc k : Nat) (p : α) :
+    rowsOfCols nc (fun _ => List.replicate k p) k = List.replicate k (List.replicate nc p) := by
+  simp only [rowsOfCols]
+  have : ∀ i ∈ List.range k, ((List.range nc).map fun _ => (List.replicate k p).getD i default)
+      = List.replicate nc p := by
+    intro i hi
+    have hi : i < k := by simpa using hi
+    simp [List.getD_eq_getElem?_getD, hi, map_range_const]
+  rw [List.map_congr_left this, map_range_const]
+
 end RowView
 
 end MlModel.Rebatch
